@@ -6,10 +6,7 @@
   acceptance of the taxonomy by the model of `validate_taxonomy_tree`
   (`RawTree.validate`, C10) as the hypothesis:
 
-    `t.validate = .ok ()`, `t.hierarchy.Nodup`, `DictOK t`   (= C10's `WF t`)
-    `HasNode t`  only where the ROOT must have a child (`Populated`): the
-                 validator accepts a taxonomy without any node, see
-                 `Bridge.emptyTree_discrepancy`.
+    `t.validate = .ok ()`, `DictOK t`   (= C10's `WF t`, `C10.wf_iff_validate`)
 
   `stage_succeeds_of_validate` covers every `drop_level` / `flatten`
   configuration: the marker stage runs on the same tree as the level loop
@@ -23,10 +20,8 @@ namespace CTM.C08
 open CTM CTM.Markers CTM.RawTree CTM.Bridge
 
 /-- (non-vacuity, used by the examples below) the example taxonomy `t0` of
-`Props/C08.lean` is accepted by the validator, has distinct level names and dict
-keys, and a node at the top -/
-example : t0.validate = .ok () ∧ t0.hierarchy.Nodup ∧ DictOK t0 ∧ HasNode t0 :=
-  ⟨by rfl, by decide, dictOK_of_b (by decide), fun l0 h0 => by cases h0; decide⟩
+`Props/C08.lean` is accepted by the validator and has distinct dict keys -/
+example : t0.validate = .ok () ∧ DictOK t0 := ⟨by rfl, dictOK_of_b (by decide)⟩
 
 /-- "The genes used at a parent node, which are also the genes the output
 reports for it, are the parent's listed markers that occur in the query; if
@@ -34,7 +29,7 @@ fewer than the configured minimum remain, the lists of its ancestors are added
 nearest first, and finally the root's, until the minimum is reached, always
 restricted to genes present in the query" — for every taxonomy the tree
 validator accepts. -/
-theorem spec_of_validate (t : RawTree) (hval : t.validate = .ok ()) (hN : t.hierarchy.Nodup)
+theorem spec_of_validate (t : RawTree) (hval : t.validate = .ok ())
     (hd : DictOK t) (lk : Lookup) (R Q : List Gene) (m : Nat) (c : Cache)
     (h : createCache (some t) lk R Q m = .ok c) (p : PKey) (hp : p ∈ t.allParents)
     (hc : Consulted t p) :
@@ -42,7 +37,7 @@ theorem spec_of_validate (t : RawTree) (hval : t.validate = .ok ()) (hN : t.hier
       rows.Pairwise (fun a b => a.1 ≤ b.1) ∧
       reportedGroup c p = .ok names ∧ assemble c p = .ok names ∧
       (∀ g, g ∈ names ↔ g ∈ specGenes t lk Q m p) ∧ names.Nodup :=
-  spec t (treeWF_of_WF (WF_of_validate hval hN hd)) lk R Q m c h p hp hc
+  spec t (treeWF_of_WF (WF.of_validate hval hd)) lk R Q m c h p hp hc
 
 example : ∀ c, createCache (some t0) lk0 [1, 2, 3, 4, 7, 9] [4, 3, 2, 1] 2 = .ok c →
     ∃ rows names, c.groups.lookup (some (1, 20)) = some rows ∧
@@ -50,22 +45,22 @@ example : ∀ c, createCache (some t0) lk0 [1, 2, 3, 4, 7, 9] [4, 3, 2, 1] 2 = .
       rows.Pairwise (fun a b => a.1 ≤ b.1) ∧
       reportedGroup c (some (1, 20)) = .ok names ∧ assemble c (some (1, 20)) = .ok names ∧
       (∀ g, g ∈ names ↔ g ∈ specGenes t0 lk0 [4, 3, 2, 1] 2 (some (1, 20))) ∧ names.Nodup :=
-  fun c h => spec_of_validate t0 (by rfl) (by decide) (dictOK_of_b (by decide)) lk0 _ _ 2 c h _
+  fun c h => spec_of_validate t0 (by rfl) (dictOK_of_b (by decide)) lk0 _ _ 2 c h _
     (by decide) ⟨[30, 31], rfl, by decide⟩
 
 /-- "deepest parents first; union with ancestors' ORIGINAL lists" — on every
 validator-accepted taxonomy the loop over the mutated table equals the loop
 that reads the original table. -/
 theorem original_lists_of_validate (t : RawTree) (hval : t.validate = .ok ())
-    (hN : t.hierarchy.Nodup) (hd : DictOK t) (Q : List Gene) (m : Nat) (lk : Lookup) :
+    (hd : DictOK t) (Q : List Gene) (m : Nat) (lk : Lookup) :
     foldSteps (validateStep t Q m) t.allParents.reverse { lookup := lk } =
       foldSteps (validateStepWith t Q m (fun _ => lk)) t.allParents.reverse { lookup := lk } :=
-  original_lists t (treeWF_of_WF (WF_of_validate hval hN hd)) Q m lk
+  original_lists t (treeWF_of_WF (WF.of_validate hval hd)) Q m lk
 
 example : foldSteps (validateStep t0 [4, 3, 2, 1] 2) t0.allParents.reverse { lookup := lk0 } =
     foldSteps (validateStepWith t0 [4, 3, 2, 1] 2 (fun _ => lk0)) t0.allParents.reverse
       { lookup := lk0 } :=
-  original_lists_of_validate t0 (by rfl) (by decide) (dictOK_of_b (by decide)) _ _ _
+  original_lists_of_validate t0 (by rfl) (dictOK_of_b (by decide)) _ _ _
 
 /-- the validated table on a validator-accepted taxonomy: consulted parents hold
 (within the query) `specGenes` of the original table ("the parent's listed
@@ -73,49 +68,48 @@ markers that occur in the query; if fewer than the configured minimum remain
 ..."); every other key is left exactly as it was ("parents with a single child
 need no markers"). -/
 theorem validated_table_of_validate (t : RawTree) (hval : t.validate = .ok ())
-    (hN : t.hierarchy.Nodup) (hd : DictOK t) (Q : List Gene) (m : Nat) (lk lk' : Lookup)
+    (hd : DictOK t) (Q : List Gene) (m : Nat) (lk lk' : Lookup)
     (h : validateLookup t Q m lk = .ok lk') :
     (∀ p ∈ t.allParents, Consulted t p →
         ∀ g, (g ∈ (get? lk' p).getD [] ∧ g ∈ Q) ↔ g ∈ specGenes t lk Q m p) ∧
     (∀ k, ¬ (k ∈ t.allParents ∧ Consulted t k) → get? lk' k = get? lk k) :=
-  validated_table t (treeWF_of_WF (WF_of_validate hval hN hd)) Q m lk lk' h
+  validated_table t (treeWF_of_WF (WF.of_validate hval hd)) Q m lk lk' h
 
 example : ∀ lk', validateLookup t0 [4, 3, 2, 1] 2 lk0 = .ok lk' →
     (∀ k, ¬ (k ∈ t0.allParents ∧ Consulted t0 k) → get? lk' k = get? lk0 k) :=
-  fun lk' h => (validated_table_of_validate t0 (by rfl) (by decide) (dictOK_of_b (by decide))
+  fun lk' h => (validated_table_of_validate t0 (by rfl) (dictOK_of_b (by decide))
     _ _ lk0 lk' h).2
 
 /-- "Query and reference values are paired by gene name regardless of column
 order": on a validator-accepted taxonomy the verdict depends on the query and
 reference gene lists only as sets. -/
 theorem verdict_order_invariant_of_validate (t : RawTree) (hval : t.validate = .ok ())
-    (hN : t.hierarchy.Nodup) (hd : DictOK t) (lk : Lookup) {R R' Q Q' : List Gene}
+    (hd : DictOK t) (lk : Lookup) {R R' Q Q' : List Gene}
     (m : Nat) (hQ : ∀ g, g ∈ Q ↔ g ∈ Q') (hR : ∀ g, g ∈ R ↔ g ∈ R') (e : MErr) :
     createCache (some t) lk R Q m = .error e ↔ createCache (some t) lk R' Q' m = .error e :=
-  verdict_order_invariant t (treeWF_of_WF (WF_of_validate hval hN hd)) lk m hQ hR e
+  verdict_order_invariant t (treeWF_of_WF (WF.of_validate hval hd)) lk m hQ hR e
 
 example : ∀ e, createCache (some t0) lk0 [1, 2, 3, 4, 7, 9] [8] 1 = .error e ↔
     createCache (some t0) lk0 [9, 7, 4, 3, 2, 1] [8, 8] 1 = .error e :=
-  fun e => verdict_order_invariant_of_validate t0 (by rfl) (by decide) (dictOK_of_b (by decide))
+  fun e => verdict_order_invariant_of_validate t0 (by rfl) (dictOK_of_b (by decide))
     lk0 1 (by simp)
     (fun g => (by decide : [1, 2, 3, 4, 7, 9].Perm [9, 7, 4, 3, 2, 1]).mem_iff) e
 
 /-- ... and so do the genes used at every consulted parent. -/
 theorem genes_order_invariant_of_validate (t : RawTree) (hval : t.validate = .ok ())
-    (hN : t.hierarchy.Nodup) (hd : DictOK t) (lk : Lookup) {R R' Q Q' : List Gene}
+    (hd : DictOK t) (lk : Lookup) {R R' Q Q' : List Gene}
     (m : Nat) (hQ : ∀ g, g ∈ Q ↔ g ∈ Q') (c c' : Cache)
     (h : createCache (some t) lk R Q m = .ok c) (h' : createCache (some t) lk R' Q' m = .ok c')
     (p : PKey) (hp : p ∈ t.allParents) (hc : Consulted t p) :
     ∃ names names', assemble c p = .ok names ∧ assemble c' p = .ok names' ∧
       ∀ g, g ∈ names ↔ g ∈ names' :=
-  genes_order_invariant t (treeWF_of_WF (WF_of_validate hval hN hd)) lk m hQ c c' h h' p hp hc
+  genes_order_invariant t (treeWF_of_WF (WF.of_validate hval hd)) lk m hQ c c' h h' p hp hc
 
 example : ∀ c c', createCache (some t0) lk0 [1, 2, 3, 4, 7, 9] [4, 3, 2, 1] 2 = .ok c →
     createCache (some t0) lk0 [9, 7, 4, 3, 2, 1] [1, 2, 3, 4] 2 = .ok c' →
     ∃ names names', assemble c none = .ok names ∧ assemble c' none = .ok names' ∧
       ∀ g, g ∈ names ↔ g ∈ names' :=
-  fun c c' h h' => genes_order_invariant_of_validate t0 (by rfl) (by decide)
-    (dictOK_of_b (by decide)) lk0 2
+  fun c c' h h' => genes_order_invariant_of_validate t0 (by rfl) (dictOK_of_b (by decide)) lk0 2
     (fun g => (by decide : [4, 3, 2, 1].Perm [1, 2, 3, 4]).mem_iff) c c' h h' none (by decide)
     ⟨[10, 11], rfl, by decide⟩
 
@@ -124,70 +118,70 @@ exactly when no consulted parent is in the error condition ("A root without
 usable markers ... a query sharing no marker with the table ends the run with an
 error instead of a mapping"). -/
 theorem lookup_ok_iff_of_validate (t : RawTree) (hval : t.validate = .ok ())
-    (hN : t.hierarchy.Nodup) (hd : DictOK t) (Q : List Gene) (m : Nat) (lk : Lookup) :
+    (hd : DictOK t) (Q : List Gene) (m : Nat) (lk : Lookup) :
     (∃ lk', validateLookup t Q m lk = .ok lk') ↔
       ∀ p ∈ t.allParents, Consulted t p → ¬ errAt t lk Q m p :=
-  validate_ok_iff t (treeWF_of_WF (WF_of_validate hval hN hd)) Q m lk
+  validate_ok_iff t (treeWF_of_WF (WF.of_validate hval hd)) Q m lk
 
 example : (∃ lk', validateLookup t0 [4, 3, 2, 1] 2 lk0 = .ok lk') ↔
     ∀ p ∈ t0.allParents, Consulted t0 p → ¬ errAt t0 lk0 [4, 3, 2, 1] 2 p :=
-  lookup_ok_iff_of_validate t0 (by rfl) (by decide) (dictOK_of_b (by decide)) _ _ _
+  lookup_ok_iff_of_validate t0 (by rfl) (dictOK_of_b (by decide)) _ _ _
 
 /-- "A root without usable markers ... ends the run with an error instead of a
 mapping" — on every validator-accepted taxonomy. -/
 theorem root_without_markers_rejected_of_validate (t : RawTree) (hval : t.validate = .ok ())
-    (hN : t.hierarchy.Nodup) (hd : DictOK t) (lk : Lookup) (R Q : List Gene)
+    (hd : DictOK t) (lk : Lookup) (R Q : List Gene)
     (m : Nat) (hc : Consulted t none) (h0 : interQ Q ((get? lk none).getD []) = []) :
     ∃ e, createCache (some t) lk R Q m = .error e :=
-  root_without_markers_rejected t (treeWF_of_WF (WF_of_validate hval hN hd)) lk R Q m hc h0
+  root_without_markers_rejected t (treeWF_of_WF (WF.of_validate hval hd)) lk R Q m hc h0
 
 example : ∃ e, createCache (some t0) lk0 [1, 2, 3, 4, 7, 9] [8] 1 = .error e :=
-  root_without_markers_rejected_of_validate t0 (by rfl) (by decide) (dictOK_of_b (by decide)) lk0
+  root_without_markers_rejected_of_validate t0 (by rfl) (dictOK_of_b (by decide)) lk0
     _ [8] 1 ⟨[10, 11], rfl, by decide⟩ (by decide)
 
 /-- "a marker unknown to the reference ... ends the run with an error" — on
 every validator-accepted taxonomy. -/
 theorem unknown_marker_rejected_of_validate (t : RawTree) (hval : t.validate = .ok ())
-    (hN : t.hierarchy.Nodup) (hd : DictOK t) (lk : Lookup) (R Q : List Gene) (m : Nat)
+    (hd : DictOK t) (lk : Lookup) (R Q : List Gene) (m : Nat)
     (hk : KeysNodup lk) (k : PKey) (l : List Gene) (hkl : (k, l) ∈ lk) (g : Gene) (hg : g ∈ l)
     (hq : g ∈ Q) (hr : g ∉ R) :
     ∃ e, createCache (some t) lk R Q m = .error e :=
-  unknown_marker_rejected t (treeWF_of_WF (WF_of_validate hval hN hd)) lk R Q m hk k l hkl g hg
+  unknown_marker_rejected t (treeWF_of_WF (WF.of_validate hval hd)) lk R Q m hk k l hkl g hg
     hq hr
 
 example : ∃ e, createCache (some t0) lk0 [1, 2, 3, 4, 9] [4, 3, 2, 1, 7] 2 = .error e :=
-  unknown_marker_rejected_of_validate t0 (by rfl) (by decide) (dictOK_of_b (by decide)) lk0 _ _ 2
+  unknown_marker_rejected_of_validate t0 (by rfl) (dictOK_of_b (by decide)) lk0 _ _ 2
     (by unfold KeysNodup; decide) (some (0, 11)) [7] (by decide) 7 (by decide) (by decide)
     (by decide)
 
 /-- "a query sharing no marker with the table ends the run with an error" — on
 every validator-accepted taxonomy, for every `min_markers`. -/
 theorem no_shared_marker_rejected_of_validate (t : RawTree) (hval : t.validate = .ok ())
-    (hN : t.hierarchy.Nodup) (hd : DictOK t) (lk : Lookup) (R Q : List Gene) (m : Nat)
+    (hd : DictOK t) (lk : Lookup) (R Q : List Gene) (m : Nat)
     (p : PKey) (hp : p ∈ t.allParents) (hc : Consulted t p)
     (h0 : specGenes t lk Q m p = []) :
     ∃ e, createCache (some t) lk R Q m = .error e :=
-  no_shared_marker_rejected t (treeWF_of_WF (WF_of_validate hval hN hd)) lk R Q m p hp hc h0
+  no_shared_marker_rejected t (treeWF_of_WF (WF.of_validate hval hd)) lk R Q m p hp hc h0
 
 example : ∃ e, createCache (some t0) lk0 [1, 2, 3, 4, 7, 9] [8] 1 = .error e :=
-  no_shared_marker_rejected_of_validate t0 (by rfl) (by decide) (dictOK_of_b (by decide)) lk0 _ [8]
+  no_shared_marker_rejected_of_validate t0 (by rfl) (dictOK_of_b (by decide)) lk0 _ [8]
     1 (some (1, 20)) (by decide) ⟨[30, 31], rfl, by decide⟩ (by decide)
 
 /-- "... and conversely none of these ⇒ a mapping": on a validator-accepted
 taxonomy a dict-like table all of whose listed genes are reference genes is
 accepted as soon as no consulted parent is in the error condition. -/
 theorem accepted_otherwise_of_validate (t : RawTree) (hval : t.validate = .ok ())
-    (hN : t.hierarchy.Nodup) (hd : DictOK t) (lk : Lookup) (R Q : List Gene) (m : Nat)
+    (hd : DictOK t) (lk : Lookup) (R Q : List Gene) (m : Nat)
     (hk : KeysNodup lk)
     (hvl : ∀ p ∈ t.allParents, Consulted t p → ¬ errAt t lk Q m p)
     (hR : ∀ e ∈ lk, ∀ g ∈ e.2, g ∈ R) :
     ∃ c, createCache (some t) lk R Q m = .ok c :=
-  accepted_otherwise t (treeWF_of_WF (WF_of_validate hval hN hd)) lk R Q m hk hvl hR
+  accepted_otherwise t (treeWF_of_WF (WF.of_validate hval hd)) lk R Q m hk hvl hR
 
 example : ∃ c, createCache (some t0) lk0 [1, 2, 3, 4, 7, 9] [4, 3, 2, 1] 2 = .ok c :=
-  accepted_otherwise_of_validate t0 (by rfl) (by decide) (dictOK_of_b (by decide)) lk0 _ _ 2
+  accepted_otherwise_of_validate t0 (by rfl) (dictOK_of_b (by decide)) lk0 _ _ 2
     (by unfold KeysNodup; decide)
-    ((lookup_ok_iff_of_validate t0 (by rfl) (by decide) (dictOK_of_b (by decide)) _ _ _).1 (by
+    ((lookup_ok_iff_of_validate t0 (by rfl) (dictOK_of_b (by decide)) _ _ _).1 (by
       have hb : (validateLookup t0 [4, 3, 2, 1] 2 lk0).toBool = true := by decide
       cases h : validateLookup t0 [4, 3, 2, 1] 2 lk0 with
       | ok lk' => exact ⟨lk', rfl⟩
@@ -197,44 +191,44 @@ example : ∃ c, createCache (some t0) lk0 [1, 2, 3, 4, 7, 9] [4, 3, 2, 1] 2 = .
 /-- on a validator-accepted taxonomy the cache writer's own "No markers at parent
 node … were present in query set" can no longer be what ends the run. -/
 theorem overlap_error_unreachable_of_validate (t : RawTree) (hval : t.validate = .ok ())
-    (hN : t.hierarchy.Nodup) (hd : DictOK t) (lk : Lookup) (R Q : List Gene) (m : Nat)
+    (hd : DictOK t) (lk : Lookup) (R Q : List Gene) (m : Nat)
     (hk : KeysNodup lk) : createCache (some t) lk R Q m ≠ .error .noQueryOverlap :=
-  overlap_error_unreachable t (treeWF_of_WF (WF_of_validate hval hN hd)) lk R Q m hk
+  overlap_error_unreachable t (treeWF_of_WF (WF.of_validate hval hd)) lk R Q m hk
 
 example : createCache (some t0) lk0 [1, 2, 3, 4, 7, 9] [8] 1 ≠ .error .noQueryOverlap :=
-  overlap_error_unreachable_of_validate t0 (by rfl) (by decide) (dictOK_of_b (by decide)) lk0 _ _ 1
+  overlap_error_unreachable_of_validate t0 (by rfl) (dictOK_of_b (by decide)) lk0 _ _ 1
     (by unfold KeysNodup; decide)
 
 /-- on a validator-accepted taxonomy the only errors of the cache creation are
 the four documented messages ("... ends the run with an error instead of a
 mapping": never an unplanned `KeyError` / `IndexError`). -/
 theorem only_documented_errors_of_validate (t : RawTree) (hval : t.validate = .ok ())
-    (hN : t.hierarchy.Nodup) (hd : DictOK t) (lk : Lookup) (R Q : List Gene) (m : Nat)
+    (hd : DictOK t) (lk : Lookup) (R Q : List Gene) (m : Nat)
     (e : MErr) (h : createCache (some t) lk R Q m = .error e) :
     e = .noMarkersAnyLevel ∨ e = .validating ∨ e = .noQueryOverlap ∨ e = .notInReference :=
-  only_documented_errors t (treeWF_of_WF (WF_of_validate hval hN hd)) lk R Q m e h
+  only_documented_errors t (treeWF_of_WF (WF.of_validate hval hd)) lk R Q m e h
 
 example : ∀ e, createCache (some t0) lk0 [1, 2, 3, 4, 7, 9] [8] 1 = .error e →
     e = .noMarkersAnyLevel ∨ e = .validating ∨ e = .noQueryOverlap ∨ e = .notInReference :=
-  fun e h => only_documented_errors_of_validate t0 (by rfl) (by decide) (dictOK_of_b (by decide))
+  fun e h => only_documented_errors_of_validate t0 (by rfl) (dictOK_of_b (by decide))
     lk0 _ _ 1 e h
 
 /-- "flattening unions every list into the root's" — end to end, with the
 validator's acceptance of the STORED (unflattened) taxonomy as the hypothesis:
 the flattened taxonomy is accepted again (C10 `flatten_preserves`). -/
 theorem flatten_spec_of_validate (t : RawTree) (hval : t.validate = .ok ())
-    (hN : t.hierarchy.Nodup) (hd : DictOK t) (lk : Lookup) (R Q : List Gene) (m : Nat)
+    (hd : DictOK t) (lk : Lookup) (R Q : List Gene) (m : Nat)
     (c : Cache) (h : createCache (some t.flatten) (flattenLookup lk) R Q m = .ok c)
     (hc : Consulted t.flatten none) :
     ∃ names, assemble c none = .ok names ∧ reportedGroup c none = .ok names ∧
       ∀ g, g ∈ names ↔ g ∈ Q ∧ ∃ e ∈ lk, g ∈ e.2 :=
-  flatten_spec t (treeWF_of_WF (flatten_wf (WF_of_validate hval hN hd))) lk R Q m c h hc
+  flatten_spec t (treeWF_of_WF (flatten_wf (WF.of_validate hval hd))) lk R Q m c h hc
 
 example : ∀ c, createCache (some t0.flatten) (flattenLookup lk0) [1, 2, 3, 4, 7, 9] [4, 3, 2, 1] 2
       = .ok c →
     ∃ names, assemble c none = .ok names ∧ reportedGroup c none = .ok names ∧
       ∀ g, g ∈ names ↔ g ∈ [4, 3, 2, 1] ∧ ∃ e ∈ lk0, g ∈ e.2 :=
-  fun c h => flatten_spec_of_validate t0 (by rfl) (by decide) (dictOK_of_b (by decide)) lk0 _ _ 2
+  fun c h => flatten_spec_of_validate t0 (by rfl) (dictOK_of_b (by decide)) lk0 _ _ 2
     c h ⟨[30, 31, 32, 33], by rfl, by decide⟩
 
 /-- "Every taxonomy the tree validator accepts ... is mapped without error" (the
@@ -244,7 +238,7 @@ tree `t` exists (`LevelLoop.runTree`, the tree the level loop votes on), once
 the cache for `t` is written the rest of the marker stage cannot fail, and for
 every consulted parent of `t` the genes used are the genes reported. -/
 theorem stage_succeeds_of_validate (t0 t : RawTree) (cfg : LevelLoop.Config)
-    (hval : t0.validate = .ok ()) (hN : t0.hierarchy.Nodup) (hd : DictOK t0) (hnode : HasNode t0)
+    (hval : t0.validate = .ok ()) (hd : DictOK t0)
     (hrun : LevelLoop.runTree t0 cfg = .ok t)
     (lk : Lookup) (R Q : List Gene) (m : Nat) (c : Cache)
     (h : createCache (some t) (if cfg.flatten then flattenLookup lk else lk) R Q m = .ok c) :
@@ -252,19 +246,18 @@ theorem stage_succeeds_of_validate (t0 t : RawTree) (cfg : LevelLoop.Config)
       (∀ e ∈ out.used, e.1 ∈ t.allParents ∧ Consulted t e.1 ∧ assemble c e.1 = .ok e.2 ∧
         reportedGroup c e.1 = .ok e.2) ∧
       (∀ e ∈ out.reported, ReportedEntry t c e.1 e.2) := by
-  have w0 := WF_of_validate hval hN hd
+  have w0 := WF.of_validate hval hd
   have w := WF_runTree w0 hrun
-  have hnode' := hasNode_of_wfb (wfb_runTree (wfb_of_WF w0 hnode) hrun)
   rw [stage_eq_stage_runTree hrun]
-  exact stage_succeeds t (treeWF_of_WF w) (populated_of_WF w hnode') _ R Q m c h
+  exact stage_succeeds t (treeWF_of_WF w) (populated_of_WF w) _ R Q m c h
 
 example : ∀ c, createCache (some t0) lk0 [1, 2, 3, 4, 7, 9] [4, 3, 2, 1] 2 = .ok c →
     ∃ out, stage t0 lk0 [1, 2, 3, 4, 7, 9] [4, 3, 2, 1] 2 none false = .ok out ∧
       (∀ e ∈ out.used, e.1 ∈ t0.allParents ∧ Consulted t0 e.1 ∧ assemble c e.1 = .ok e.2 ∧
         reportedGroup c e.1 = .ok e.2) ∧
       (∀ e ∈ out.reported, ReportedEntry t0 c e.1 e.2) :=
-  fun c h => stage_succeeds_of_validate t0 t0 {} (by rfl) (by decide) (dictOK_of_b (by decide))
-    (fun l0 h0 => by cases h0; decide) rfl lk0 _ _ 2 c h
+  fun c h => stage_succeeds_of_validate t0 t0 {} (by rfl) (dictOK_of_b (by decide))
+    rfl lk0 _ _ 2 c h
 
 /-- (non-vacuity of the `drop_level` case) dropping the middle level of `t0` -/
 example : ∃ t, LevelLoop.runTree t0 { dropLevel := some 1 } = .ok t ∧ t.hierarchy = [0, 2] :=
